@@ -76,7 +76,21 @@ Definition step (r : Z) (s : st) (l : label) : option st :=
                     waited := true; otmr := TArmed (ceil_r r (now s + T)); done := [] |}
       | _ => None
       end
-  | OpenDone => match ph s with WaitOpen => Some (enter r s) | _ => None end
+  | OpenDone =>
+      match ph s with
+      | WaitOpen =>
+          (* on_open: the outer timer is cancelled (from here on the timeout sink enforces the deadline); a call
+             that already timed out while waiting for Open() is not dispatched at all *)
+          let s1 := {| now := now s; ph := ph s; t0 := t0 s; tmo := tmo s; stack := stack s; tmr := tmr s;
+                       waited := waited s; otmr := match otmr s with TArmed _ => TCancelled | x => x end;
+                       done := done s |} in
+          match done s with
+          | [] => Some (enter r s1)
+          | _ => Some {| now := now s; ph := Live; t0 := t0 s; tmo := tmo s; stack := []; tmr := TNone;
+                         waited := waited s; otmr := otmr s1; done := done s |}
+          end
+      | _ => None
+      end
   | Tick t =>
       if t <? now s then None else
       Some {| now := t; ph := ph s; t0 := t0 s; tmo := tmo s; stack := stack s; tmr := tmr s; waited := waited s; otmr := otmr s; done := done s |}
@@ -112,10 +126,9 @@ Definition step (r : Z) (s : st) (l : label) : option st :=
                       waited := waited s; otmr := otmr s; done := done s |}
           | FResp :: k =>                                  (* _AsyncResponseSink: the single ar.set / set_exception *)
               if waited s then
-                (* the inner result completes; on_done cancels the outer timer and completes the caller's
-                   result unless the outer timer already did *)
+                (* the inner result completes; on_done completes the caller's result unless it is already complete *)
                 Some {| now := now s; ph := ph s; t0 := t0 s; tmo := tmo s; stack := k; tmr := tmr s; waited := true;
-                        otmr := match otmr s with TArmed _ => TCancelled | x => x end;
+                        otmr := otmr s;
                         done := match done s with [] => [(now s, m)] | d => d end |}
               else
                 Some {| now := now s; ph := ph s; t0 := t0 s; tmo := tmo s; stack := k; tmr := tmr s;
